@@ -822,13 +822,13 @@ func lookupBeforeLock(p *Prog, r *Reporter) {
 
 // ---------- int arguments of query methods are not truncated ----------
 
-// queryIntParamsRangeChecked: in methods of Query, an `int` parameter reaches a conversion to a 32-bit type only where it is
+// queryIntParamsRangeChecked: in methods of Query and World, an `int` parameter reaches a conversion to a 32-bit type only where it is
 // known to be at most MaxUint32 (a dominating comparison with a constant, or a clamp): entity counts are 32 bits, so
 // a larger index or step is out of range for every query and must behave so — not like its value modulo 2^32.
 func queryIntParamsRangeChecked(p *Prog, r *Reporter) {
 	n := 0
 	for _, fn := range p.Funcs {
-		if fn.Pkg == nil || fn.Pkg.Pkg.Name() != "ecs" || typeName(recvType(fn)) != "Query" || fn.Blocks == nil {
+		if rt := typeName(recvType(fn)); fn.Pkg == nil || fn.Pkg.Pkg.Name() != "ecs" || (rt != "Query" && rt != "World") || fn.Blocks == nil {
 			continue
 		}
 		for _, par := range fn.Params {
